@@ -220,6 +220,12 @@ def build_wows(v, rng, join=True, battle_end=True, map_name='spaces/16_OC_bees_t
             payload2 = bits2 + b''.join(gen_types.wire_of(strip_user(rft)[1], r_) for r_ in recs)
             if len(payload2) < 256:
                 b.pkt('NestedProperty', struct.pack('<IbB', A, 1, len(payload2)) + bytes(3) + payload2); b.expect['avatar_ribbons'] = {3: 4, 8: 1, 9: 1}
+                def ribbon_slice(w, i1, i2, nrec=1):
+                    """payload of a slice packet into the ribbons list (now 3 records) whose two bounds are w bits wide"""
+                    bb_ = synth.pack_bits([(1, 1), (anames.index('privateVehicleState'), synth.bits_required(len(anames))), (1, 1), (pf.index('ribbons'), synth.bits_required(len(pf))), (0, 1), (i1, w), (i2, w)])
+                    pl_ = bb_ + b''.join(gen_types.wire_of(strip_user(rft)[1], recs[0]) for _ in range(nrec))
+                    return struct.pack('<IbB', A, 1, len(pl_)) + bytes(3) + pl_
+                b.ribbon_slice = ribbon_slice
     if cell_first:
         b.base_player(A)
         b.map(777, map_name)
